@@ -129,6 +129,15 @@ func (w *World) doOp() {
 			kinds = append(kinds, "rtdown")
 		}
 	}
+	if w.prof.States {
+		kinds = append(kinds, "state", "podupdate")
+	}
+	if w.prof.Hostile {
+		kinds = append(kinds, "raw", "raw", "hostile")
+	}
+	if w.prof.RealGCRun {
+		kinds = append(kinds, "tick") // the periodic loops (GC, EnsureBasicRule) fire while requests are in flight
+	}
 	if w.prof.Stop && idle && w.C.Prob(1, 3) {
 		kinds = append(kinds, "stop")
 	}
@@ -154,6 +163,19 @@ func (w *World) doOp() {
 		w.S.Stat("fault.runtime.down")
 		w.S.Sig("F:rt.down")
 		w.unscripted++
+	case "raw":
+		w.spawnRaw()
+	case "hostile":
+		w.hostileOp()
+	case "podupdate":
+		// somebody else updates a pod (label change): the pod store moves under galaxy's feet
+		p := w.cfg.Pods[w.C.Choose(len(w.cfg.Pods))]
+		n := w.S.Steps
+		w.K.Patch(nil, "pods", p.NS, p.Name, func(m map[string]interface{}) {
+			meta := m["metadata"].(map[string]interface{})
+			meta["labels"] = map[string]interface{}{"rev": fmt.Sprint(n)}
+		})
+		w.S.Stat("op.pod-update")
 	case "stop":
 		w.S.Stat("op.restart")
 		w.summary = append(w.summary, "restart")
@@ -178,7 +200,7 @@ func (w *World) podOp(p *PodDef) {
 		w.spawnRequest(c, "ADD")
 	case "del":
 		c := w.cur[p.Idx]
-		if w.prof.GC && c.Phase == "up" && w.C.Prob(1, 3) {
+		if (w.prof.GC || w.prof.States) && c.Phase == "up" && w.C.Prob(1, 3) {
 			// the sandbox dies and kubelet never gets to tear it down (kubelet restart, node pressure): GC's job
 			c.Abandoned = true
 			w.setState(c, w.deadState())
@@ -187,7 +209,7 @@ func (w *World) podOp(p *PodDef) {
 			delete(w.cur, p.Idx)
 			return
 		}
-		if w.prof.GC && w.C.Prob(1, 2) {
+		if (w.prof.GC || w.prof.States) && w.C.Prob(1, 2) {
 			w.setState(c, w.deadState()) // kubelet stops the sandbox, then calls DEL
 		}
 		w.spawnRequest(c, "DEL")
@@ -199,7 +221,7 @@ func (w *World) podOp(p *PodDef) {
 			return
 		}
 		// kubelet removes the sandbox; a new one may follow
-		if w.prof.GC {
+		if w.prof.GC || w.prof.States {
 			w.setState(c, "absent")
 		}
 		delete(w.cur, p.Idx)
